@@ -50,11 +50,18 @@ def _cases(fields, rng, tier):
     return out
 
 
+def _layout(fields):
+    """fingerprint of a class layout: a recorded assignment is an assignment of THIS layout only"""
+    return ['%s:%s:%s%s' % (f.name, f.wrap, ','.join(str(x) for x in f.prim[:2] if not isinstance(x, list)),
+                            '/' + '.'.join(str(w) for w in f.prim[2]) if f.prim[0] == 'bits' else '')
+            for f in fields]
+
+
 def _judge(ctx, idx, cls, info, mode, vals, model_enc, model_dec_of):
     """Compare real code with model (tie) and with the round-trip law (property)."""
     fields = info['fields']
     name = info['name']
-    case = {'class': name, 'mode': mode, 'values': [cc.show(v) for v in vals]}
+    case = {'class': name, 'mode': mode, 'values': [cc.show(v) for v in vals], 'layout': _layout(fields)}
     real = cc.encode_real(cls, fields, vals)
     # --- tie: encoded bytes
     m = model_enc
@@ -123,17 +130,26 @@ def _judge(ctx, idx, cls, info, mode, vals, model_enc, model_dec_of):
 #   ['item', i, pos, v]        obj.field_i[pos] = v                    (in place)
 #   ['slice', i, a, b, hex]    obj.field_i[a:b] = array('B', bytes)    (in place; also deletes)
 #   ['append', i, v] ['extend', i, hex] ['pop', i] ['insert', i, pos, v]
-#   ['decode', hex, [toks]]    decode_message(obj, bytes)              (toks = the values those bytes encode)
+#   ['decode', [toks]]         decode_message(obj, encode_message(fresh object carrying toks))
+#                              (the bytes are produced when the op is executed, by the tree under test:
+#                               decode(encode(x)) into a USED object must leave it with x)
 # ---------------------------------------------------------------------------------------
 ARR = ('bytes', 'varBytes', 'remaining')
 RENEW = 6          # the long-lived instance of the assignment stream is renewed every RENEW cases
+
+
+class _Abort(Exception):
+    """the fresh encoder fails on the values of a decode step: nothing to decode (the assignment stream reports it)"""
 
 
 def _h_real(obj, fields, op):
     from pyipmi.msgs.message import decode_message
     k = op[0]
     if k == 'decode':
-        decode_message(obj, lean.unhex(op[1]))
+        real = cc.encode_real(type(obj), fields, [cc.parse(t) for t in op[1]])
+        if real[0] != 'ok':
+            raise _Abort()
+        decode_message(obj, real[1])
         return
     f = fields[op[1]]
     if k == 'set':
@@ -170,7 +186,7 @@ def _h_real(obj, fields, op):
 def _h_canon(vals, fields, op):
     k = op[0]
     if k == 'decode':
-        return [cc.parse(t) for t in op[2]]
+        return [cc.parse(t) for t in op[1]]
     vals = list(vals)
     i = op[1]
     if k == 'set':
@@ -351,6 +367,8 @@ def _h_run(cls, fields, init, steps):
             if err is None:
                 try:
                     _h_real(obj, fields, op)
+                except _Abort:
+                    return out, obj
                 except Exception as e:  # noqa
                     err = '%s in %s' % (type(e).__name__, op[0])
         enc, pk, held = _h_observe(obj, fields, st['kind'] == 'decode')
@@ -444,10 +462,9 @@ def _gen_history(rng, cls, fields, init_vals, kinds, fresh_start=False):
             ops = _assign_step(rng, obj, fields, vals, new, 0.7 if kind == 'mixed' else 0)
         if kind == 'decode':
             new = cc.assignment(fields, rng, rng.choice(('boundary', 'random')))
-            real = cc.encode_real(cls, fields, new)
-            if real[0] != 'ok':
+            if cc.encode_real(cls, fields, new)[0] != 'ok':
                 continue
-            ops = [['decode', lean.hexs(real[1]), [cc.show(v) for v in new]]]
+            ops = [['decode', [cc.show(v) for v in new]]]
         if not ops:
             continue
         for op in ops:
@@ -480,9 +497,8 @@ def _run_histories(ctx, drv, rng, idx, cls, info, cases):
                     pass
             steps.append({'kind': 'assign', 'ops': ops})
             if j % 2 == 0:
-                real = cc.encode_real(cls, fields, new)
-                if real[0] == 'ok':
-                    op = ['decode', lean.hexs(real[1]), [cc.show(v) for v in new]]
+                if cc.encode_real(cls, fields, new)[0] == 'ok':
+                    op = ['decode', [cc.show(v) for v in new]]
                     try:
                         _h_real(obj, fields, op)
                     except Exception:  # noqa
@@ -512,7 +528,8 @@ def _run_histories(ctx, drv, rng, idx, cls, info, cases):
                 d = cc.decode_real(cls, fields, rec[2][1]) if rec[2][0] == 'ok' else ('x',)
                 if d[0] != 'ok' or d[1] != rec[1]:
                     break
-            recs.append((tag, {'class': name, 'op': 'history', 'init': init, 'steps': steps[:k], 'judged': k}, rec))
+            recs.append((tag, {'class': name, 'op': 'history', 'init': init, 'steps': steps[:k], 'judged': k,
+                               'layout': _layout(fields)}, rec))
     models = drv.ask_many(['enc %d %s' % (idx, ' '.join(cc.show(v) for v in rec[1])) for _, _, rec in recs])
     for (tag, case, rec), m in zip(recs, models):
         ctx.case((name, 'history', tag, repr(case['init']), repr(case['steps'])))
@@ -613,15 +630,19 @@ def replay(ctx, v):
         hit = [x for x in c2.violations if x['signature'] == v['signature']]
         print('pairing %s: %s' % (info['name'], hit[0]['what'] if hit else 'ok'))
         return bool(hit)
+    if case.get('layout') is not None and case['layout'] != _layout(info['fields']):
+        print('class %s is laid out differently on this tree: the recorded values are not an assignment of its fields' % info['name'])
+        print('  recorded: %s' % ' '.join(case['layout']))
+        print('  here    : %s' % ' '.join(_layout(info['fields'])))
+        return False
     if case.get('op') == 'history':
         c2 = ctx.__class__('C01', 'quick', 0)
         print('class %s, one object: %s, then %d step(s)' % (
             info['name'], 'fresh instance' if case['init'] is None else 'values ' + ' '.join(case['init']),
             len(case['steps'])))
         for st in case['steps']:
-            print('  %-8s %s' % (st['kind'], ' ; '.join(' '.join(str(x) for x in op[:2] if not isinstance(x, list))
-                                                          + ''.join(' %s' % x for x in op[2:] if not isinstance(x, list))
-                                                          for op in st['ops'])))
+            print('  %-8s %s' % (st['kind'], ' ; '.join(
+                ' '.join(' '.join(x) if isinstance(x, list) else str(x) for x in op) for op in st['ops'])))
         out, _ = _h_run(cls, info['fields'], case['init'], case['steps'])
         for k, rec in enumerate(out):
             if k >= 1 or case['init'] is not None:
